@@ -47,7 +47,8 @@ Family ==
        [kind : {"lit"}, i : 1..Len(L2), d : 1..Len(D2), t : {0}]
   \cup [kind : {"near"}, i : 1..Len(OpSeq), d : {1, 3}, t : 1..NTransforms]
   \cup [kind : {"disp"}, i : 1..Len(OpSeq), d : {3, 8}, t : {0}]
-  \cup [kind : {"nest"}, i : 1..Len(L2), d : {3}, t : {0}]
+  \cup [kind : {"nest", "nestmap", "nestfilter", "nestreduce", "nestin"}, i : 1..Len(L2), d : {3}, t : {0}]
+  \cup [kind : {"collmap", "collfilter", "collreduce", "collmerge"}, i : {q \in 1..Len(L2) : L2[q].t = "a"}, d : {3, 4}, t : {0}]
 
 RuleOf(cc) ==
   CASE cc.kind = "lit" -> L2[cc.i]
@@ -55,6 +56,16 @@ RuleOf(cc) ==
     [] cc.kind = "disp" -> Obj(<< <<OpSeq[cc.i], A2[BenignIdx(OpSeq[cc.i])]>> >>)
     \* a literal as an operand of an eager operator and as a branch result: still returned untouched
     [] cc.kind = "nest" -> Op(K_if, <<True, Op(K_merge, <<L2[cc.i], Arr(<<L2[cc.i]>>)>>)>>)
+    \* a literal as a member of a literal array given to map / filter / reduce / in: members are not evaluated
+    [] cc.kind = "nestmap" -> Op(K_map, <<Arr(<<L2[cc.i], IntV(2)>>), VarOf(<<>>)>>)
+    [] cc.kind = "nestfilter" -> Op(K_filter, <<Arr(<<L2[cc.i], IntV(2)>>), True>>)
+    [] cc.kind = "nestreduce" -> Op(K_reduce, <<Arr(<<L2[cc.i]>>), VarOf(S_current), IntV(0)>>)
+    [] cc.kind = "nestin" -> Op(K_in, <<L2[cc.i], Arr(<<IntV(2), L2[cc.i]>>)>>)
+    \* a literal ARRAY (possibly with operation-shaped members) as the collection itself: members stay unevaluated
+    [] cc.kind = "collmap" -> Op(K_map, <<L2[cc.i], VarOf(<<>>)>>)
+    [] cc.kind = "collfilter" -> Op(K_filter, <<L2[cc.i], True>>)
+    [] cc.kind = "collreduce" -> Op(K_reduce, <<L2[cc.i], VarOf(S_current), IntV(0)>>)
+    [] cc.kind = "collmerge" -> Op(K_merge, <<L2[cc.i], L2[cc.i]>>)
 DataOf(cc) == D2[cc.d]
 
 Init == c \in Family /\ phase = "new"
@@ -81,6 +92,20 @@ NestedLiteralUntouched ==
      LET o == Outcome(c)
          v == L2[c.i]
      IN o.ok /\ SameValue(o.v, Arr((IF v.t = "a" THEN v.v ELSE <<v>>) \o <<v>>))
+NestedInCollectionsUntouched ==
+  phase = "done" /\ c.kind \in {"nestmap", "nestfilter", "nestreduce", "nestin"} =>
+     LET o == Outcome(c)
+         v == L2[c.i]
+     IN o.ok /\ CASE c.kind \in {"nestmap", "nestfilter"} -> SameValue(o.v, Arr(<<v, IntV(2)>>))
+                  [] c.kind = "nestreduce" -> SameValue(o.v, v)
+                  [] c.kind = "nestin" -> o.v = True
+LiteralCollectionsUntouched ==
+  phase = "done" /\ c.kind \in {"collmap", "collfilter", "collreduce", "collmerge"} =>
+     LET o == Outcome(c)
+         v == L2[c.i]
+     IN o.ok /\ SameValue(o.v, CASE c.kind = "collmerge" -> Arr(v.v \o v.v)
+                                  [] c.kind = "collreduce" -> (IF v.v = <<>> THEN IntV(0) ELSE v.v[Len(v.v)])
+                                  [] OTHER -> v)
 ExportCases ==
   phase = "done" => Export(<<c.kind, c.i, c.d, c.t>>, RuleOf(c), DataOf(c), Outcome(c), <<"C02">>, Flags(FALSE, TRUE))
 =============================================================================
